@@ -1,5 +1,5 @@
 #!/bin/bash
-# usage: confirm_seed.sh <Cxx> [check ids...]  — confirms a sub-agent's seeded change in its scratch worktree, runs our checks on it
+# usage: [ROUND=round2] confirm_seed.sh <Cxx> [check ids...]  — confirms a sub-agent's seeded change in its scratch worktree, runs our checks on it
 P=$1; shift; CHECKS=${@:-$P}; W=/tmp/wt_$P; S=$W/SEED
 cd $W || exit 2
 git checkout -q -- src 2>/dev/null
@@ -16,5 +16,5 @@ git -C /repo apply $S/patch.diff || { echo "PATCH DOES NOT APPLY TO /repo"; exit
 for c in $CHECKS; do python3 /verif/tools/check.py $c 2>&1 | grep -E "^VIOLATION|^KNOWN" | head -3; echo "$c exit=${PIPESTATUS[0]}"; done
 git -C /repo checkout -- .
 python3 /verif/tools/srcfacts.py >/dev/null
-mkdir -p /verif/seeded/$P && cp $S/patch.diff $S/meta.json /verif/seeded/$P/ 2>/dev/null; cp $S/demo.cpp $S/build.sh /verif/seeded/$P/ 2>/dev/null
+D=/verif/seeded/$P${ROUND:+/$ROUND}; mkdir -p $D && cp $S/patch.diff $S/meta.json $D/ 2>/dev/null; cp $S/demo.cpp $S/build.sh $D/ 2>/dev/null
 echo "clean=$RC_CLEAN changed=$RC_MUT"
